@@ -204,6 +204,8 @@ type FlowSpec struct {
 	// FailCalls fixes the outcome of every call to the listed callees (used by
 	// FailStops: "assume the check fails; the sink must be unreachable").
 	FailCalls []FailCall
+	// noExpand: helper summaries are not (again) added to this spec.
+	noExpand bool
 }
 
 // FailCall assumes that result #Idx (-1 = last) of calls to Callee has Outcome.
@@ -229,7 +231,7 @@ func (spec *FlowSpec) failOutcome(c *Ctx, call *ast.CallExpr, idx, n int) Tri {
 	}
 	for i := range spec.FailCalls {
 		fc := &spec.FailCalls[i]
-		if !fc.Callee.Has(Callee(c.Info, call)) {
+		if !fc.Callee.HasCall(c.Info, call) {
 			continue
 		}
 		if fc.ArgOK != nil && !fc.ArgOK(c, call) {
@@ -274,6 +276,7 @@ func (fl *Flow) Live(n *GNode) bool { return fl.In[n] != nil }
 
 // RunFlow runs the forward must-analysis over f.
 func RunFlow(f *FuncInfo, spec *FlowSpec) *Flow {
+	spec = expandSpec(f, spec)
 	g := f.Graph()
 	fl := &Flow{G: g, C: f.Ctx(), In: map[*GNode]*State{}, Out: map[*GNode]*State{}, EdgeIn: map[*GEdge]*State{}, Spec: spec,
 		forallOK: map[ast.Stmt]map[Fact]bool{}}
@@ -561,9 +564,31 @@ func (fl *Flow) transfer(n *GNode, st *State) {
 									v Tri
 								}{o, triOf(r.Name == "true")})
 							}
-						} else if _, isV := ro.(*types.Var); isV {
-							copies = append(copies, [2]types.Object{o, ro})
+						} else if rv, isV := ro.(*types.Var); isV {
+							if rv.Pkg() != nil && rv.Parent() == rv.Pkg().Scope() && isErrorType(o.Type()) && isErrorType(rv.Type()) {
+								// package-level sentinel error: non-nil
+								lits = append(lits, struct {
+									o types.Object
+									v Tri
+								}{o, True})
+							} else {
+								copies = append(copies, [2]types.Object{o, ro})
+							}
 						}
+					}
+				case *ast.SelectorExpr:
+					if rv, ok := info.ObjectOf(r.Sel).(*types.Var); ok && !rv.IsField() && isErrorType(o.Type()) && isErrorType(rv.Type()) {
+						lits = append(lits, struct {
+							o types.Object
+							v Tri
+						}{o, True}) // pkg.ErrX
+					}
+				case *ast.CallExpr:
+					if isErrorType(o.Type()) && errConstructors.Has(Callee(info, r)) {
+						lits = append(lits, struct {
+							o types.Object
+							v Tri
+						}{o, True})
 					}
 				}
 			}
@@ -708,8 +733,7 @@ func DeferredCalls(a ast.Node) []*ast.CallExpr {
 }
 
 func (fl *Flow) callMatches(cg *CallGuard, call *ast.CallExpr) bool {
-	fn := Callee(fl.C.Info, call)
-	if !cg.Callee.Has(fn) {
+	if !cg.Callee.HasCall(fl.C.Info, call) {
 		return false
 	}
 	if cg.ArgOK != nil && !cg.ArgOK(fl.C, call) {
@@ -1111,4 +1135,8 @@ func atomVars(c *Ctx, e ast.Expr) []types.Object {
 		return true
 	})
 	return out
+}
+
+func isErrorType(t types.Type) bool {
+	return types.Identical(t, types.Universe.Lookup("error").Type())
 }
